@@ -28,6 +28,25 @@ const LAST_COL: i32 = 16_384;
 
 pub const CFGS: [(&str, &str); 3] = [("en", "en"), ("de", "de"), ("es", "en-GB")];
 
+/// Sheet names of the workbook under test: plain, or names that must be quoted in every printed reference
+/// (the second one with an apostrophe to double). Set per case, read by every helper of this module.
+const PLAIN: [&str; 2] = ["Sheet1", "Sheet2"];
+const QUOTED: [&str; 2] = ["My Data", "It's 2"];
+thread_local! { static SHEETS: std::cell::Cell<[&'static str; 2]> = const { std::cell::Cell::new(PLAIN) }; }
+fn sheets() -> [&'static str; 2] {
+    SHEETS.with(|c| c.get())
+}
+fn set_sheets(quoted: bool) {
+    SHEETS.with(|c| c.set(if quoted { QUOTED } else { PLAIN }));
+}
+fn qn(i: usize) -> String {
+    ironcalc_base::expressions::utils::quote_name(sheets()[i])
+}
+/// Rewrites the qualifiers `Sheet1!` / `Sheet2!` of harness formula text to the names in force.
+fn sub(text: &str) -> String {
+    text.replace("Sheet1!", &format!("{}!", qn(0))).replace("Sheet2!", &format!("{}!", qn(1)))
+}
+
 fn constructs() -> Vec<&'static str> {
     vec![
         "G1", "$H$2", "G$1+$H2", "Sheet2!G1", "SUM(G1:H2)", "SUM(Sheet2!G1:H2,$H$2)", "INDEX({1,2;3,4},2,1)", "SUM({1,2;3,4})",
@@ -35,6 +54,7 @@ fn constructs() -> Vec<&'static str> {
         "1.5*G1", "LET(x,G1,x+1)", "LAMBDA(a,a+G1)(1)", "@G1", "nm+1", "TRUE",
         "1-(2-G1)", "2^(G1^2)", "-(-G1)", "(G1=1)=TRUE", "G1-(H1+1)", "G1/(H1*2)", "(G1&H1)&\"z\"", "SUM(G1,H1,2)",
         "MAX(G1:G2)-MIN(H1:H2)", "SUM(G1:INDEX(G1:H2,2,2))", "1+G1%", "ROUND(G1/3,2)",
+        "IF(G1>1,G1*2,#N/A)", "IFERROR(G1/0,#DIV/0!)", "IF(G1>100,#VALUE!,G1)",
     ]
 }
 
@@ -63,19 +83,19 @@ fn typed(env: &mut c09::Env, english: &str, lang: &str, locale: &str, row: i32, 
     // the parse context of c09::Env is C3; formulas here are typed in other cells too, so print from a tree parsed
     // with an own parser at that cell
     let _ = env;
-    let mut p = fx::mk_parser(&["Sheet1", "Sheet2"], names(), fx::loc("en"), fx::lang("en"));
-    let t = p.parse(english, &fx::ctx("Sheet1", row, col));
+    let mut p = fx::mk_parser(&sheets(), names(), fx::loc("en"), fx::lang("en"));
+    let t = p.parse(&sub(english), &fx::ctx(sheets()[0], row, col));
     if fx::has_parse_error(&t) {
         return None;
     }
-    Some(format!("={}", to_localized_string(&t, &fx::ctx("Sheet1", row, col), fx::loc(locale), fx::lang(lang))))
+    Some(format!("={}", to_localized_string(&t, &fx::ctx(sheets()[0], row, col), fx::loc(locale), fx::lang(lang))))
 }
 
 fn names() -> Vec<(String, Option<u32>, String)> {
     vec![
-        ("nm".into(), None, "Sheet1!$G$1".into()),
-        ("src".into(), None, "Sheet1!$C$3".into()),
-        ("srcr".into(), None, "Sheet1!$C$3:$D$3".into()),
+        ("nm".into(), None, sub("Sheet1!$G$1")),
+        ("src".into(), None, sub("Sheet1!$C$3")),
+        ("srcr".into(), None, sub("Sheet1!$C$3:$D$3")),
     ]
 }
 
@@ -97,10 +117,10 @@ fn observers() -> Vec<(u32, i32, i32, &'static str, &'static str)> {
 
 fn build(env: &mut c09::Env, lang: &'static str, locale: &'static str, shape: Shape, first: &str, is_const: bool) -> Option<UserModel<'static>> {
     let mut um = UserModel::new_empty("c16", locale, "UTC", lang).ok()?;
-    let _ = um.rename_sheet(0, "Sheet1");
+    let _ = um.rename_sheet(0, sheets()[0]);
     um.new_sheet().ok()?;
-    let _ = um.rename_sheet(1, "Sheet2");
-    if um.get_model().workbook.get_worksheet_names() != vec!["Sheet1".to_string(), "Sheet2".to_string()] {
+    let _ = um.rename_sheet(1, sheets()[1]);
+    if um.get_model().workbook.get_worksheet_names() != vec![sheets()[0].to_string(), sheets()[1].to_string()] {
         return None;
     }
     for (s, r, c, v) in [(0, 1, 7, "7"), (0, 1, 8, "3"), (0, 2, 7, "5"), (0, 2, 8, "11"), (1, 1, 7, "13"), (1, 1, 8, "17"), (1, 2, 7, "19"), (1, 2, 8, "23")] {
@@ -114,8 +134,8 @@ fn build(env: &mut c09::Env, lang: &'static str, locale: &'static str, shape: Sh
     um.set_user_input(0, SR, SC, &first_text).ok()?;
     if !is_const {
         // the typed text must be stored as the formula meant (otherwise C09's subject)
-        let mut p = fx::mk_parser(&["Sheet1", "Sheet2"], names(), fx::loc("en"), fx::lang("en"));
-        let t = p.parse(first, &fx::ctx("Sheet1", SR, SC));
+        let mut p = fx::mk_parser(&sheets(), names(), fx::loc("en"), fx::lang("en"));
+        let t = p.parse(&sub(first), &fx::ctx(sheets()[0], SR, SC));
         if fx::stored_rc(um.get_model(), 0, SR, SC)? != to_rc_format(&t) {
             return None;
         }
@@ -144,7 +164,7 @@ fn build(env: &mut c09::Env, lang: &'static str, locale: &'static str, shape: Sh
 }
 
 fn rc_parser() -> Parser<'static> {
-    let mut p = fx::mk_parser(&["Sheet1", "Sheet2"], names(), fx::loc("en"), fx::lang("en"));
+    let mut p = fx::mk_parser(&sheets(), names(), fx::loc("en"), fx::lang("en"));
     fx::set_rc(&mut p, true);
     p
 }
@@ -153,7 +173,7 @@ fn rc_parser() -> Parser<'static> {
 /// sheet names dropped, defined-name bodies blanked): two such trees are equal iff they denote the same cells.
 fn denote(p: &mut Parser, um: &UserModel, sheet: u32, row: i32, col: i32) -> Option<Node> {
     let rc = fx::stored_rc(um.get_model(), sheet, row, col)?;
-    let sname = if sheet == 0 { "Sheet1" } else { "Sheet2" };
+    let sname = sheets()[if sheet == 0 { 0 } else { 1 }];
     let mut t = p.parse(&rc, &fx::ctx(sname, row, col));
     // a stored formula is R1C1 text the engine printed itself: if it does not print back to the same text it is
     // not a stored formula but some other text that was kept verbatim (the parser ignores trailing input)
@@ -310,14 +330,17 @@ pub struct Case {
     pub dr: i32,
     pub dc: i32,
     pub cut: bool,
+    /// sheet names that need quoting
+    pub qs: bool,
 }
 
 fn case_json(c: &Case) -> Value {
-    json!({"cfg": c.cfg, "formula": c.formula, "const": c.is_const, "h": c.h, "w": c.w, "ts": c.ts, "dr": c.dr, "dc": c.dc, "cut": c.cut})
+    json!({"cfg": c.cfg, "formula": c.formula, "const": c.is_const, "h": c.h, "w": c.w, "ts": c.ts, "dr": c.dr, "dc": c.dc, "cut": c.cut, "qs": c.qs})
 }
 
 /// Cut only: coarse class of the difference at the first pasted cell (None = fine or not executable).
 fn first_cell_class(env: &mut c09::Env, c: &Case) -> Option<String> {
+    set_sheets(c.qs);
     let (lang, locale) = CFGS[c.cfg];
     let shape = Shape { h: c.h, w: c.w };
     let mut um = build(env, lang, locale, shape, &c.formula, false)?;
@@ -336,9 +359,9 @@ fn first_cell_class(env: &mut c09::Env, c: &Case) -> Option<String> {
 /// Minimises a cut whose pasted formula lost its nesting: descends into sub-formulas that still fail when cut on
 /// their own, then finds the culprit operand by substituting the leaf `2` (same method as C09, with the cut as printer).
 fn refine_nesting(env: &mut c09::Env, c: &Case) -> Option<String> {
-    let cx = fx::ctx("Sheet1", SR, SC);
-    let mut p = fx::mk_parser(&["Sheet1", "Sheet2"], names(), fx::loc("en"), fx::lang("en"));
-    let t = p.parse(&c.formula, &cx);
+    let cx = fx::ctx(sheets()[0], SR, SC);
+    let mut p = fx::mk_parser(&sheets(), names(), fx::loc("en"), fx::lang("en"));
+    let t = p.parse(&sub(&c.formula), &cx);
     if fx::has_parse_error(&t) {
         return None;
     }
@@ -382,6 +405,7 @@ fn refine_nesting(env: &mut c09::Env, c: &Case) -> Option<String> {
 }
 
 pub fn check(env: &mut c09::Env, c: &Case) -> (bool, Vec<Disagreement>) {
+    set_sheets(c.qs);
     let (lang, locale) = CFGS[c.cfg];
     let shape = Shape { h: c.h, w: c.w };
     let mut um = match build(env, lang, locale, shape, &c.formula, c.is_const) {
@@ -488,7 +512,7 @@ pub fn check(env: &mut c09::Env, c: &Case) -> (bool, Vec<Disagreement>) {
                     } else {
                         // copy: relative form identical, off-grid references become #REF!
                         let rc_src = src_rc[idx].clone().unwrap_or_default();
-                        let mut want = p.parse(&rc_src, &fx::ctx("Sheet1", SR + i, SC + j));
+                        let mut want = p.parse(&rc_src, &fx::ctx(sheets()[0], SR + i, SC + j));
                         let mut off = false;
                         fx::walk_mut(&mut want, &mut |n| {
                             let bad = |abs: bool, v: i32, base: i32, max: i32| {
@@ -508,7 +532,7 @@ pub fn check(env: &mut c09::Env, c: &Case) -> (bool, Vec<Disagreement>) {
                             }
                         });
                         let rc_got = fx::stored_rc(um.get_model(), c.ts, r, cc).unwrap_or_default();
-                        let tsheet = if c.ts == 0 { "Sheet1" } else { "Sheet2" };
+                        let tsheet = sheets()[if c.ts == 0 { 0 } else { 1 }];
                         let mut got_rel = p.parse(&rc_got, &fx::ctx(tsheet, r, cc));
                         if !fx::has_parse_error(&got_rel) && to_rc_format(&got_rel) != rc_got {
                             got_rel = Node::ParseErrorKind { formula: rc_got.clone(), message: "stored text is not R1C1".into(), position: 0, expecting: vec![] };
@@ -557,12 +581,12 @@ pub fn check(env: &mut c09::Env, c: &Case) -> (bool, Vec<Disagreement>) {
     // defined names follow a cut
     let moved = c.dr != 0 || c.dc != 0 || c.ts != 0;
     let col = |n: i32| ironcalc_base::expressions::utils::number_to_column(n).unwrap_or_default();
-    let tsheet = if c.ts == 0 { "Sheet1" } else { "Sheet2" };
-    let want_src = if c.cut && moved { format!("{}!${}${}", tsheet, col(SC + c.dc), SR + c.dr) } else { "Sheet1!$C$3".to_string() };
+    let tsheet = qn(if c.ts == 0 { 0 } else { 1 });
+    let want_src = if c.cut && moved { format!("{}!${}${}", tsheet, col(SC + c.dc), SR + c.dr) } else { sub("Sheet1!$C$3") };
     let want_srcr = if c.cut && moved && c.w >= 2 {
         format!("{}!${}${}:${}${}", tsheet, col(SC + c.dc), SR + c.dr, col(SC + 1 + c.dc), SR + c.dr)
     } else {
-        "Sheet1!$C$3:$D$3".to_string()
+        sub("Sheet1!$C$3:$D$3")
     };
     for (name, want) in [("src", want_src), ("srcr", want_srcr)] {
         let got = um.get_model().workbook.defined_names.iter().find(|d| d.name == name).map(|d| d.formula.clone()).unwrap_or_default();
@@ -637,11 +661,24 @@ pub fn cases(thorough: bool) -> Vec<Case> {
             for (ts, dr, dc) in &targets {
                 for cut in [false, true] {
                     for f in &small {
-                        v.push(Case { cfg, formula: f.clone(), is_const: false, h: *h, w: *w, ts: *ts, dr: *dr, dc: *dc, cut });
+                        v.push(Case { cfg, formula: f.clone(), is_const: false, h: *h, w: *w, ts: *ts, dr: *dr, dc: *dc, cut, qs: false });
                     }
                     for k in CONSTANTS {
-                        v.push(Case { cfg, formula: k.to_string(), is_const: true, h: *h, w: *w, ts: *ts, dr: *dr, dc: *dc, cut });
+                        v.push(Case { cfg, formula: k.to_string(), is_const: true, h: *h, w: *w, ts: *ts, dr: *dr, dc: *dc, cut, qs: false });
                     }
+                }
+            }
+        }
+    }
+    // sheet names that must be quoted (en/en): the hand-picked constructs and the constants, every shape, target and mode
+    for (h, w) in &shapes {
+        for (ts, dr, dc) in &targets {
+            for cut in [false, true] {
+                for f in constructs() {
+                    v.push(Case { cfg: 0, formula: f.to_string(), is_const: false, h: *h, w: *w, ts: *ts, dr: *dr, dc: *dc, cut, qs: true });
+                }
+                for k in CONSTANTS {
+                    v.push(Case { cfg: 0, formula: k.to_string(), is_const: true, h: *h, w: *w, ts: *ts, dr: *dr, dc: *dc, cut, qs: true });
                 }
             }
         }
@@ -653,7 +690,7 @@ pub fn cases(thorough: bool) -> Vec<Case> {
             for cfg in [0usize, 1] {
                 for (ts, dr, dc) in [(0u32, 0, 1), (0, 1, 0), (0, -1, -1), (0, 2, 2), (1, 0, 0), (1, 1, 2)] {
                     for cut in [false, true] {
-                        v.push(Case { cfg, formula: f.clone(), is_const: false, h: 1, w: 2, ts, dr, dc, cut });
+                        v.push(Case { cfg, formula: f.clone(), is_const: false, h: 1, w: 2, ts, dr, dc, cut, qs: false });
                     }
                 }
             }
@@ -711,6 +748,7 @@ pub fn run(run: &mut Run) {
         "source_shapes": if thorough { "1x1, 1x2, 2x2 at Sheet1!C3" } else { "1x1, 1x2 at Sheet1!C3" },
         "targets": "offsets {-1,0,1,2}^2 on the same sheet (overlapping and disjoint) + 2 on the other sheet",
         "modes": ["copy", "cut"],
+        "sheet_names": "Sheet1/Sheet2 for every configuration; `My Data`/`It's 2` (quoted in every printed reference) for en/en over the hand-picked constructs and the constants",
         "first_cell_formulas": corpus(thorough).len(),
         "large_term_set": if thorough { "depth<=1 over {G1,$H$2,Sheet2!G1,2} x 12 operators with unary - and %: 1x2 block, en/en and de/de, six targets" } else { "-" },
         "constants": CONSTANTS,
@@ -735,6 +773,7 @@ pub fn replay(case: &Value) -> Vec<Disagreement> {
         dr: case["dr"].as_i64().unwrap_or(0) as i32,
         dc: case["dc"].as_i64().unwrap_or(0) as i32,
         cut: case["cut"].as_bool().unwrap_or(false),
+        qs: case["qs"].as_bool().unwrap_or(false),
     };
     check(&mut env, &c).1
 }
